@@ -267,6 +267,10 @@ class Interp:
         self.assume_no_wrap = assume_no_wrap
         self.exempt_usize_adds = 0
         self._unsat_cache = {}
+        self._const_cache = {}
+        self.hyps = None                # callable(state, goal) -> extra hypotheses (axiom instances) for entailment
+        self.head_states = []
+        self.back_states = []           # (fn path, head, state, mapping) at back edges of the stable iteration
         from . import stdsum
         self.std = stdsum.TABLE
 
@@ -284,7 +288,10 @@ class Interp:
             return goal[1]
         if goal in st.pcset:
             return True
-        return self.unsat(st.pc, (T.mk_not(goal),))
+        extra = (T.mk_not(goal),)
+        if self.hyps is not None:
+            extra = tuple(self.hyps(st, goal)) + extra
+        return self.unsat(st.pc, extra)
 
     def feasible(self, st, cond):
         if T.is_bool(cond):
@@ -580,6 +587,11 @@ class Interp:
             v = self.crate.const_value(c['named'])
             if v is not None:
                 return I(v)
+            body = self.crate.fns.get(c['named'])
+            if body is not None and body.kind == 'const' and body.arg_count == 0:
+                cv = self.eval_const(body)
+                if cv is not None:
+                    return clone_val(cv, IdentityMemo())
             return self.sym_value(st, ('const', c['named']), ty)
         if 'named' in c and c.get('promoted') is not None:
             return self.sym_value(st, ('promoted', c['named'], c['promoted']), ty)
@@ -1058,6 +1070,7 @@ class Interp:
             for c in valid:
                 s0.assume(c)
             f0.active.append(head)
+            s0_snapshot = s0.clone()
             s0.ghost[('loophead', depth, head)] = [hv for hv, _ in mapping]
             res = self.run(s0, stop)
             bad = set()
@@ -1075,6 +1088,12 @@ class Interp:
                     final.append(o)
             if not bad:
                 self.loop_info.append((fn.path, head, [T.show(c) for c in valid]))
+                for o in res:
+                    if o.kind == 'back' and o.info == (depth, head):
+                        self._havocked_set = havocked_locals
+                        cur = self.current_values(o.state, o.state.frames[-1], hav, mapping)
+                        self.back_states.append((fn.path, head, o.state, mapping, valid, cur))
+                self.head_states.append((fn.path, head, s0_snapshot, mapping, valid))
                 return final
             dropped |= bad
 
@@ -1233,6 +1252,22 @@ class Interp:
         for hv, ev in bools:
             cands += [hv, T.mk_not(hv)]
         return [c for c in cands if not T.is_bool(c)]
+
+    def eval_const(self, body):
+        """value of a crate-local const item, by interpreting its (argument-free) initialiser"""
+        key = body.path
+        if key in self._const_cache:
+            return self._const_cache[key]
+        self._const_cache[key] = None
+        s = State()
+        s.frames = [Frame(body, [Cell() for _ in body.locals])]
+        try:
+            res = [o for o in self.run(s) if o.kind == 'ret']
+        except Unanalysable:
+            res = []
+        if len(res) == 1 and not res[0].state.pc:
+            self._const_cache[key] = res[0].value
+        return self._const_cache[key]
 
     # ---- closures / local functions summarised as terms
     def eval_local(self, st, cfn, args, site, env_fix=False):
